@@ -258,7 +258,16 @@ fn content_type(c: &Case) -> Option<String> {
     1 => "application/typescript",
     _ => "application/json",
   };
-  c.charset.filter(|cs| !cs.starts_with('#')).map(|cs| format!("{}; charset={}", mt, cs))
+  // the charset parameter may sit anywhere in the parameter list, with or without blanks around it
+  c.charset.filter(|cs| !cs.starts_with('#')).map(|cs| {
+    match crate::common::hash64(&(&c.bytes, cs, c.media, c.remote)) % 6 {
+      0 => format!("{};charset={}", mt, cs),
+      1 => format!("{}; version=5; charset={}", mt, cs),
+      2 => format!("{} ;  boundary=x ;   charset={}  ", mt, cs),
+      3 => format!("{}; charset={}; profile=\"x\"", mt, cs),
+      _ => format!("{}; charset={}", mt, cs),
+    }
+  })
 }
 
 fn headers_of(c: &Case) -> Vec<(String, String)> {
